@@ -597,8 +597,10 @@ fn gen_ops(rng: &mut Rng, run_index: u64) -> Vec<IdOp> {
     let n = rng.range(8, 60);
     let long = "x".repeat(300);
     let pool = |rng: &mut Rng| -> String {
-        match rng.below(11) {
+        match rng.below(12) {
             0 => String::new(),
+            // strings that differ from a built-in only in case or by a character
+            11 => rng.pick_str(&["XML", "Xml", "xmL", "xmlns", "XMLNS", "ID", "Id", "SPACE", "Space", "xml ", "xml:", "id", "space"]).to_string(),
             1 => long.clone(),
             2 => format!("fresh{}", rng.below(100000)),
             3 => rng.pick_str(&URIS).to_string(), // equal strings across the three tables
@@ -610,9 +612,10 @@ fn gen_ops(rng: &mut Rng, run_index: u64) -> Vec<IdOp> {
         }
     };
     let upool = |rng: &mut Rng| -> String {
-        match rng.below(8) {
+        match rng.below(9) {
             0 => String::new(),
             1 => XML_NS.to_string(),
+            8 => rng.pick_str(&["HTTP://WWW.W3.ORG/XML/1998/NAMESPACE", "http://www.w3.org/XML/1998/namespace/", "http://www.w3.org/xml/1998/namespace", "http://www.w3.org/2000/xmlns/", "URN:X", " "]).to_string(),
             2 => format!("urn:fresh:{}", rng.below(1000)),
             3 => rng.pick_str(&LOCALS).to_string(),
             // the namespaces html5() registers (the first is xot's spelling of the XHTML namespace)
